@@ -27,6 +27,31 @@ From Coq Require Import List NArith Bool Arith.
 From SV Require Import Common.Slab C19.Model.
 Import ListNotations.
 
+(* ------------------------------------------------- the configuration path *)
+
+(** the optional [udp] block of a [Cluster] message (proto [UdpClusterConfig]; absent fields are [None]) *)
+Record udp_block := mkudp {
+  u_with_port : option bool; u_responses : option N; u_requests : option N;
+  u_send_pp : option bool; u_pp_every : option bool }.
+
+(** [UdpProxy::apply_cluster] step 1c (udp.rs): the cache entry of the cluster becomes the block of THIS
+    AddCluster; no block clears it (back to the defaults) *)
+Definition apply_cluster_cache (_old : option udp_block) (block : option udp_block) : option udp_block := block.
+
+(** [cluster_config_for] + [apply_udp_knobs] (udp.rs): the listener's timeouts, the proto defaults, then the
+    cached block *)
+Definition cluster_config_for (cluster : list N) (front back : N) (cache : option udp_block) : cfg :=
+  match cache with
+  | None => mkcfg cluster false 0 0 front back false false
+  | Some u =>
+    mkcfg cluster (match u_with_port u with Some b => b | None => false end)
+          (match u_responses u with Some n => n | None => 0%N end)
+          (match u_requests u with Some n => n | None => 0%N end)
+          front back
+          (match u_send_pp u with Some b => b | None => false end)
+          (match u_pp_every u with Some b => b | None => false end)
+  end.
+
 (* ------------------------------------------------------------ WriteQueue *)
 
 Inductive outcome := Sent | WouldBlock | HardErr.
